@@ -84,7 +84,9 @@ func (ro *rollout) field() string {
 	return "spec"
 }
 
-func (ro *rollout) stamp(o sim.Obj, which string) string { return sim.NestedString(o, ro.field(), which) }
+func (ro *rollout) stamp(o sim.Obj, which string) string {
+	return sim.NestedString(o, ro.field(), which)
+}
 
 func (ro *rollout) children() []sim.Obj {
 	var out []sim.Obj
